@@ -532,7 +532,7 @@ func cmdCheck(args []string) int {
 		ev["violations"] = len(violations)
 	}
 	// bounded stand-ins for functions outside the reach of the contract language (labelled bounded; never counted as discharged)
-	if bs := runBoundedStandIns(*verif, *repo, *prop); len(bs) > 0 {
+	if bs := runBoundedStandIns(*verif, *repo, *prop, *tier); len(bs) > 0 {
 		var recs []map[string]interface{}
 		for _, b := range bs {
 			recs = append(recs, map[string]interface{}{"label": "bounded", "stands_in_for": b.What, "test": b.Run, "file": b.File, "explored": b.Summary, "failed": b.Failed, "seconds": round3(b.Secs)})
